@@ -19,6 +19,12 @@ VEC_READ = {'begin', 'end', 'cbegin', 'cend', 'size', 'empty', 'front', 'back', 
 MAP_READ = {'at', 'count', 'find', 'begin', 'end', 'size', 'empty', 'cbegin', 'cend', 'contains', 'equal_range'}
 
 
+def _strip_cast(t):
+    while isinstance(t, tuple) and t and t[0] in ('cast', 'conv') and len(t) == 3:
+        t = t[2]
+    return t
+
+
 class Ev:
     __slots__ = ('kind', 'node', 'args', 'fn', 'extra')
 
@@ -150,6 +156,15 @@ class Events:
         r = self.role(lhs)
         if r in ('N', 'S', 'T'):
             kind = {'=': 'set', '+=': 'add', '-=': 'sub'}.get(op, 'unknown')
+            # x = x + d / x = d + x / x = x - d are the compound forms written out
+            if kind == 'set' and rhs[0] == 'bin' and rhs[1] in ('+', '-'):
+                if rhs[2] == lhs:
+                    kind, rhs = ('add' if rhs[1] == '+' else 'sub'), rhs[3]
+                elif rhs[3] == lhs and rhs[1] == '+':
+                    kind, rhs = 'add', rhs[2]
+            if r == 'N' and kind in ('add', 'sub') and _strip_cast(rhs) == ('int', 1):
+                self.events.append(Ev('N.%s' % ('inc' if kind == 'add' else 'dec'), nid, (), f, dict(owner=lhs)))
+                return
             self.events.append(Ev('%s.%s' % (r, kind), nid, (rhs,), f, dict(owner=lhs, rhsnode=rhsnode)))
             if kind == 'unknown':
                 self.unknown.append((nid, 'operator %s on a counter field' % op))
@@ -160,6 +175,8 @@ class Events:
             return
         if lhs[0] == 'idx' and self.role(lhs[1]) == 'L':
             kind = {'=': 'L.set', '+=': 'L.addAssign', '-=': 'L.subAssign'}.get(op, 'L.unknown')
+            if kind == 'L.set' and rhs[0] == 'bin' and rhs[1] in ('+', '-') and rhs[2] == lhs:
+                kind, rhs = ('L.addAssign' if rhs[1] == '+' else 'L.subAssign'), rhs[3]
             self.events.append(Ev(kind, nid, (lhs[2], rhs), f, dict(owner=lhs[1], rhsnode=rhsnode)))
             if kind == 'L.unknown':
                 self.unknown.append((nid, 'operator %s on a label-store element' % op))
